@@ -628,6 +628,10 @@ def gen_S(tier):
                         for fpr in (1, 2, 3, 4):
                             if fpr > n and fpr != 1:
                                 continue
+                            if n in (1, 4) and fpr <= 2 and not extra:
+                                # a log that starts at X = 0 (from surface, from the start of the clock): a zero is a value like any other
+                                spec = base_spec(cfg, n, fpr, indirect=indirect, updown=updown, spacing=spacing, x0=0)
+                                yield ['file_head', ['pass', spec, 0], 'file_tail'], {'maxlen': 65535}, [['load', 0, None, None], ['load', 0, [0, n, 2], [len(cfg) - 1]]]
                             spec = base_spec(cfg, n, fpr, indirect=indirect, updown=updown, spacing=spacing, **extra)
                             ops = [['load', 0, None, None]] + [['load', 0, s, cs] for s in slices_for(n) for cs in (None, [len(cfg) - 1])]
                             yield ['file_head', ['pass', spec, 0], 'file_tail'], {'maxlen': 65535}, ops
